@@ -130,3 +130,26 @@ def scanner_state_expr(fn_node):
       if vals is not None and '3' in vals and len(vals) <= 8:
         return norm(x.left)
   raise AnalysisError('Traverse: the test for the triple-quote state is not recognised')
+
+
+def table_dispatch(view, table_attr):
+  """Where ConvertToSql looks a call up in one of its template tables:
+  [(cfg node of the header, statements run for a hit)].  Two spellings of the
+  same dispatch are recognised:
+      for k, v in self.T.items():            if call['predicate_name'] in self.T:
+        if call['predicate_name'] == k:        v = self.T[call['predicate_name']]
+          <hit>                                 <hit>
+  """
+  out = []
+  for n in view.cfg.stmt_nodes():
+    st = view.cfg.stmt[n]
+    if isinstance(st, ast.For) and table_attr in norm(st.iter):
+      ifs = [x for x in st.body if isinstance(x, ast.If)]
+      if ifs:
+        out.append((n, ifs[0].body))
+    elif isinstance(st, ast.If) and isinstance(st.test, ast.Compare) and len(st.test.ops) == 1 and \
+        isinstance(st.test.ops[0], ast.In) and \
+        (dotted(st.test.comparators[0]) or '').endswith(table_attr) and \
+        'predicate_name' in norm(st.test.left):
+      out.append((n, st.body))
+  return out
